@@ -530,3 +530,95 @@ def chain_of(text: str | bytes) -> dict | None:
     if x is None:
         return None
     return {"ch": frames, "x": x}
+
+
+# ---------------------------------------------------------------------------
+# data(): Nix data syntax -> the `reading' of Values.tla
+
+def _data(node, b) -> dict:
+    t = node.type
+    if t == "parenthesized_expression":
+        inner = node.child_by_field_name("expression") or node.named_children[0]
+        return _data(inner, b)
+    if t == "integer_expression":
+        return {"t": "int", "s": str(int(_text(node, b)))}
+    if t == "float_expression":
+        txt = _text(node, b)
+        try:
+            num = repr(float(txt))
+        except ValueError:
+            num = "unparsable"
+        return {"t": "float", "lex": list(txt), "num": num}
+    if t == "unary_expression":
+        op = node.children[0]
+        arg = node.child_by_field_name("argument") or node.named_children[-1]
+        if _text(op, b) == "-":
+            r = _data(arg, b)
+            if r["t"] == "int":
+                return {"t": "int", "s": str(-int(r["s"]))}
+            if r["t"] == "float":
+                return {"t": "float", "lex": ["-"] + r["lex"], "num": repr(-float(r["num"])) if r["num"] != "unparsable" else "unparsable"}
+        return {"t": "notdata", "why": "unary"}
+    if t == "variable_expression":
+        n = _text(node, b)
+        if n in ("true", "false"):
+            return {"t": "bool", "b": n == "true"}
+        if n == "null":
+            return {"t": "null"}
+        return {"t": "notdata", "why": "identifier"}
+    if t == "string_expression":
+        if any(c.type == "interpolation" for c in node.children):
+            return {"t": "notdata", "why": "interpolation"}
+        return {"t": "str", "raw": list(_text(node, b)[1:-1])}
+    if t == "list_expression":
+        return {"t": "list", "xs": [_data(c, b) for c in node.named_children if c.type != "comment"]}
+    if t in ("attrset_expression", "rec_attrset_expression"):
+        ks, vs = [], []
+        bs = next((c for c in node.children if c.type == "binding_set"), None)
+        for c in (bs.children if bs else []):
+            if c.type == "binding":
+                ap = next(x for x in c.children if x.type == "attrpath")
+                names = _attr_names(ap, b)
+                vn = [x for x in c.named_children if x.type not in ("attrpath", "comment")][-1]
+                if len(names) != 1:
+                    return {"t": "notdata", "why": "attrpath"}
+                ks.append(names[0])
+                vs.append(_data(vn, b))
+            elif c.type != "comment":
+                return {"t": "notdata", "why": c.type}
+        return {"t": "dict", "ks": ks, "vs": vs}
+    if t == "apply_expression":
+        return {"t": "notdata", "why": "application"}
+    return {"t": "notdata", "why": t}
+
+
+def data(text: str | bytes, where: str = "top") -> dict:
+    """where: "top" (whole expression), "k" (value of binding k of the top-level set), "first" (first list element),
+    "let_k" (value of the let binding k)."""
+    root, b = cst(text)
+    if root.has_error:
+        return {"t": "notdata", "why": "syntax_error"}
+    exprs = [c for c in root.children if c.type != "comment"]
+    if len(exprs) != 1:
+        return {"t": "notdata", "why": "not_one_expression"}
+    node = exprs[0]
+    if where == "let_k":
+        if node.type != "let_expression":
+            return {"t": "notdata", "why": "no_let"}
+        bs = next((c for c in node.children if c.type == "binding_set"), None)
+        for c in (bs.children if bs else []):
+            if c.type == "binding" and _attr_names(next(x for x in c.children if x.type == "attrpath"), b) == ["k"]:
+                return _data([x for x in c.named_children if x.type not in ("attrpath", "comment")][-1], b)
+        return {"t": "notdata", "why": "no_binding_k"}
+    r = _data(node, b)
+    if where == "top":
+        return r
+    if where == "k":
+        if r["t"] != "dict" or "k" not in r["ks"]:
+            return {"t": "notdata", "why": "no_binding_k" if r["t"] == "dict" else r.get("why", r["t"])}
+        return r["vs"][r["ks"].index("k")]
+    if where == "first":
+        if r["t"] != "list" or not r["xs"]:
+            return {"t": "notdata", "why": r.get("why", "no_list")}
+        return r["xs"][0]
+    raise ValueError(where)
